@@ -52,6 +52,16 @@ CLAIMED = {
         'design_ref': 'DESIGN.md section 5 C14',
         'technique': 'Coq proof (direct from the transcribed guards + round trip) + size_of cross-check + differential correspondence',
     },
+    'C15': {
+        'category': 'proof',
+        'text': ('Kernel-checked on an abstract machine transcribing ArrayDropGuard (fill_buffer: call, then write, then increment; Drop over [0, init_count); transmute_to_array: reset, then read): '
+                 'for EVERY length N and EVERY element-decoder script no UB event (no drop/read of an unwritten or moved slot), every constructed element is dropped or returned exactly once, failure or '
+                 'panic at position j drops exactly elements 0..j-1, success returns all N; the two classic bug variants are shown to produce UB/double drop. PARTIAL by nature: memory safety of the real '
+                 'MaybeUninit/pointer casts is outside Gallina (Miri run in the thorough tier is supporting validation). ' + CORR + ' N = 0..17, 31..33, 64, every failing position x {Err, panic}, nested arrays, '
+                 'event-for-event against an instrumented heap-owning element type, std and no_std builds.'),
+        'design_ref': 'DESIGN.md section 5 C15; NOTES-array.md',
+        'technique': 'Coq proof (loop invariant on the guard machine) + event-trace correspondence with an instrumented element type (+ Miri in thorough)',
+    },
     'C09': {
         'category': 'proof',
         'text': ('Kernel-checked on a statement-by-statement transcription of max_serialized_size_impl/is_zero_size_impl (explicit stack, count multiplier, checked arithmetic, every early return): '
